@@ -401,7 +401,7 @@ var goEnv = []string{"GOFLAGS=-mod=mod", "GOPROXY=off", "GOSUMDB=off", "GOTOOLCH
 
 // Fc runs the fc binary built from the scratch tree.
 func (c *Ctx) Fc(dir string, files ...string) RunResult {
-	return Run(dir, 20*time.Second, 4096, []string{"GOMAXPROCS=2"}, filepath.Join(c.Bin, "fc"), files...)
+	return Run(dir, 90*time.Second, 4096, []string{"GOMAXPROCS=2"}, filepath.Join(c.Bin, "fc"), files...)
 }
 
 // MiniFoi writes a small package_info file (parsing the full pkg_all.foi costs ~65 ms per fc
